@@ -253,8 +253,22 @@ def resmgr_cases(rng, thorough):
           {"mode": "res_mgr", "events": E(("register", 1, 0), ("register", 2, 1), ("register", 1, 0), ("unregister", 2), ("race", 4))},
           {"mode": "res_mgr", "events": E(("register", 100, 0), "dispose_all", ("register", 5, 0), "dispose_all", "gate", "dispose_all")},
           {"mode": "res_mgr", "events": E(("register", 1, 0), ("register", 2, 0), ("register", 3, 1), ("race", 8), ("register", 4, 0), ("race", 2))}]
+    # Register calls made WHILE a DisposeAll runs: from inside a resource's Dispose (ids 200..299 register id+100) and from
+    # another goroutine while a gated resource (100..199) holds the loop
+    for l0 in ([1, 2], [1, 2, 3], [4]):
+        pre = [("register", i, 0) for i in l0]
+        cs += [{"mode": "res_mgr", "events": E(*pre, ("register", 100, 0), "dispose_all", ("register", 5, 0), ("register", 6, 0), "gate"), "during": True},
+               {"mode": "res_mgr", "events": E(*pre, ("register", 200, 0), "dispose_all"), "during": True},
+               {"mode": "res_mgr", "events": E(*pre, ("register", 201, 0), ("register", 7, 0), ("register", 202, 0), "dispose_all"), "during": True},
+               {"mode": "res_mgr", "events": E(*pre, ("register", 100, 0), ("timeout", 30), ("register", 8, 0), "gate"), "during": True}]
     cs += [gen_resmgr_hist(rng) for _ in range(400 if thorough else 60)]
     return cs
+
+
+def throttle_cases(thorough):
+    """a bandwidth-limited bridge (100 B/s .. 1 KB/s) closed while a copy direction holds one chunk far larger than the bucket"""
+    base = [(100, 4096, 1), (1024, 32768, 2)] + ([(256, 8192, 3), (1000, 16384, 1)] if thorough else [])
+    return [{"mode": "bridge_throttle", "side": side, "reads": r, "point": p, "k": k} for side in (0, 1) for r, p, k in base]
 
 
 def overlap_cases(thorough):
@@ -293,7 +307,7 @@ def zenc(z):
 
 
 def case_value(c, o, tunnel_fixed, traffic_fixed, stream_fixed=True, start_ctx_first=True, start_spawns=3, writer_holds=False, flags=None):
-    flags = flags or {"lock_first": True, "mapping_early_return": False, "bridge_fast_path": False, "remove_first": True, "chan_buffered": True}
+    flags = flags or {"lock_first": True, "mapping_early_return": False, "bridge_fast_path": False, "remove_first": True, "chan_buffered": True, "dispose_copies": True, "throttle_ctx": True}
     m = c["mode"]
     if m == "tunnel_start":
         sd = o["steps_done"]
@@ -304,6 +318,15 @@ def case_value(c, o, tunnel_fixed, traffic_fixed, stream_fixed=True, start_ctx_f
         return [5, start_ctx_first, start_spawns, sd, [o["state"], o["on_closed"], 1 if o["start_ok"] else 0, 1 if o["left"] else 0]]
     if m == "session_overlap":
         return [10, flags["remove_first"], bool(c["side"]), [bool(c["reads"] >> i & 1) for i in range(max(1, c["k"]))], o["stream_closes"]]
+    if m == "bridge_throttle":
+        return [14, flags["throttle_ctx"], max(1, c.get("k", 1)), bool(o["close_returned"]), bool(o["start_returned"])]
+    if m == "res_mgr" and c.get("during"):
+        evs = o["events"]
+        start = max(i for i, e in enumerate(evs) if e[0] == 2)
+        l0 = [e[1] for e in evs[:start] if e[0] == 1]
+        after = [0 if e[0] == 0 else [e[1]] for e in evs[start + 1:] if e[0] in (0, 1)]
+        nd = sum(1 for e in evs[start + 1:] if e[0] == 0)
+        return [13, not flags["dispose_copies"], l0, after, list(o["dispose_log"])[-nd:] if nd else [], [int(n[1:]) for n in o["still_registered"]]]
     if m == "res_mgr":
         if c.get("timeout_path"):
             return [12, flags["chan_buffered"], bool(o["left"])]
@@ -374,14 +397,15 @@ def run(ctx, only_cases=None):
     start_ctx_first, writer_holds = flag("TunnelStartSetCtxBeforeCas"), flag("SourceWriterHoldsLockAcrossWrite")
     flags3 = {"lock_first": flag("StreamLockBeforeClosedCheck"), "mapping_early_return": flag("MappingCleanupEarlyReturn"),
               "bridge_fast_path": flag("BridgeCloseFastPath"), "remove_first": flag("CloseConnectionRemovesFirst"),
-              "chan_buffered": flag("DisposeResultChanBuffered")}
+              "chan_buffered": flag("DisposeResultChanBuffered"), "dispose_copies": flag("DisposeAllCopiesOrder"),
+              "throttle_ctx": flag("ThrottleWaitUsesContext")}
     start_spawns = int(re.search(r"Definition TunnelStartSpawns : nat := (\d+)\.", gen_text).group(1))
     broken = None
     try:
         pinfo = vlib.coq_properties("C16")
         vlib.coq_make(["Proofs/SideC16.vo"])
         vlib.proof_coverage(ctx, pinfo, "make -C coq Properties/C16.vo Proofs/SideC16.vo && coqc Properties/C16.v (Print Assumptions audit)",
-                            extra_obligations=12)
+                            extra_obligations=14)
     except vlib.Broken as b:
         broken = b
     ibin = None
@@ -407,7 +431,7 @@ def run(ctx, only_cases=None):
         cases += start_close_cases(ctx.rng, thorough)
         cases += stall_cases(thorough)
         cases += queue_cases() + fault_cases(ctx.rng, thorough) + attach_cases(ctx.rng, thorough)
-        cases += resmgr_cases(ctx.rng, thorough) + overlap_cases(thorough)
+        cases += resmgr_cases(ctx.rng, thorough) + overlap_cases(thorough) + throttle_cases(thorough)
         cases += race_cases(ctx.rng, thorough)
     is_instr = lambda c: c["mode"] == "tunnel_sched" or (c["mode"] == "tunnel_start" and c["point"] >= 0)
     plain = [c for c in cases if not is_instr(c)]
@@ -438,8 +462,9 @@ def run(ctx, only_cases=None):
     # ---- model vs implementation on the deterministic modes ----
     # stream_gate reads=1 parks inside io.ReadFull, which holds its own copy of the reader: outside the model's granularity
     det = [(c, o) for c, o in done if c["mode"] in ("dispose_hist", "tunnel_seq", "tunnel_sched", "traffic_gate", "stream_gate",
-                                                     "tunnel_start", "bridge_stall", "stream_queue", "fault_close", "bridge_attach", "session_overlap", "res_mgr")
-           and not (c["mode"] == "res_mgr" and not c.get("timeout_path") and any(e["op"] not in ("register", "unregister", "dispose_all") or e.get("a", 0) >= 100 for e in c["events"]))
+                                                     "tunnel_start", "bridge_stall", "stream_queue", "fault_close", "bridge_attach", "session_overlap", "res_mgr", "bridge_throttle")
+           and o.get("key") != "bridge-throttle-setup" and ("start_returned" in o or c["mode"] != "bridge_throttle")
+           and not (c["mode"] == "res_mgr" and not c.get("timeout_path") and not c.get("during") and any(e["op"] not in ("register", "unregister", "dispose_all") or e.get("a", 0) >= 100 for e in c["events"]))
            and ("stream_closes" in o or c["mode"] != "session_overlap") and ("dispose_log" in o or c["mode"] != "res_mgr")
            and o.get("key") not in ("stream-queue-setup", "fault-setup") and ("counts" in o or c["mode"] != "fault_close")
            and ("b_result" in o or c["mode"] != "stream_queue")
@@ -496,7 +521,7 @@ def run(ctx, only_cases=None):
             nontriv.add(json.dumps(c, sort_keys=True))
         elif c["mode"] == "bridge_stall" or (c["mode"] == "stream_queue" and o.get("b_parked_on_lock")):
             nontriv.add(json.dumps(c, sort_keys=True))
-        elif c["mode"] == "session_overlap" or (c["mode"] == "res_mgr" and len(c["events"]) >= 3):
+        elif c["mode"] == "session_overlap" or (c["mode"] == "res_mgr" and len(c["events"]) >= 3) or (c["mode"] == "bridge_throttle" and o.get("parked_in_throttle")):
             nontriv.add(json.dumps(c, sort_keys=True))
         elif c["mode"] == "fault_close" and c["reads"] != 0:
             nontriv.add(json.dumps(c, sort_keys=True))
@@ -504,7 +529,7 @@ def run(ctx, only_cases=None):
             nontriv.add(json.dumps(c, sort_keys=True))
     trials = sum(o.get("trials", 0) for c, o in done if c["mode"].endswith("race"))
     samples = []
-    for mode in ("dispose_hist", "tunnel_sched", "traffic_gate", "tunnel_start", "bridge_stall", "stream_queue", "fault_close", "bridge_attach", "res_mgr", "session_overlap", "tunnel_race"):
+    for mode in ("dispose_hist", "tunnel_sched", "traffic_gate", "tunnel_start", "bridge_stall", "stream_queue", "fault_close", "bridge_attach", "res_mgr", "session_overlap", "bridge_throttle", "tunnel_race"):
         for c, o in done:
             if c["mode"] == mode:
                 samples.append({"case": c, "observed": {k: v for k, v in o.items() if k not in ("prop_msg",)}})
@@ -522,7 +547,8 @@ def run(ctx, only_cases=None):
                 "sub-component Close calls of the composite shutdown paths (mapping handler, StreamProcessor, SessionManager, Bridge, Tunnel) "
                 "with 1 or 3 concurrent callers, attach-after-close histories of the bridge up to length 3 ended by the lifecycle's Close, ResourceManager histories "
                 "(Register / Unregister / DisposeAll, the timeout path of DisposeWithTimeout with a gated slow resource, DisposeAll while "
-                "another is parked, concurrent DisposeAll), a closer parked inside the stream Close of a session connection while 1-3 more "
+                "another is parked, concurrent DisposeAll, Register calls made while a DisposeAll runs - re-entrant from a resource's Dispose and "
+                "from another goroutine), bandwidth-limited bridges closed while a copy direction waits for tokens, a closer parked inside the stream Close of a session connection while 1-3 more "
                 "closers (CloseConnection / SessionManager.Close) run. non-trivial = at least two closers/reporters really "
                 "interleave (>=2 closes or close+add; >=2 parked closers; >=2 sequential ops; >=2 started reporters with a positive add; a Close that really landed inside Start; every stalled-peer case; a really parked queued operation; a non-empty failure mask; a history with an attach); "
                 "distinct by the full case. Contention loops (K goroutines behind a barrier, exactly-once counters, goroutine-dump diff) are "
@@ -539,7 +565,8 @@ def run(ctx, only_cases=None):
                          "start_setctx_before_cas": start_ctx_first, "source_writer_holds_lock_across_write": writer_holds,
                          "stream_lock_before_closed_check": flags3["lock_first"], "mapping_cleanup_early_return": flags3["mapping_early_return"],
                          "bridge_close_fast_path": flags3["bridge_fast_path"],
-                         "close_connection_removes_first": flags3["remove_first"], "dispose_result_chan_buffered": flags3["chan_buffered"]},
+                         "close_connection_removes_first": flags3["remove_first"], "dispose_result_chan_buffered": flags3["chan_buffered"],
+                         "dispose_all_copies_order": flags3["dispose_copies"], "throttle_wait_uses_context": flags3["throttle_ctx"]},
         "tunnel_race_double_bodies_seen": sum(o.get("doubles", 0) for c, o in done if c["mode"] == "tunnel_race"),
         "generated_file_changed": gen_changed,
     })
